@@ -152,7 +152,9 @@ func MsgFromProto(p *tmcons.Message) (Message, error) {
 		}
 
 		pbBits := new(bits.BitArray)
-		pbBits.FromProto(msg.BlockParts)
+		if err := pbBits.FromProto(msg.BlockParts); err != nil {
+			return nil, fmt.Errorf("block parts to proto error: %w", err)
+		}
 
 		pb = &NewValidBlockMessage{
 			Height:             msg.Height,
@@ -172,7 +174,9 @@ func MsgFromProto(p *tmcons.Message) (Message, error) {
 		}
 	case *tmcons.ProposalPOL:
 		pbBits := new(bits.BitArray)
-		pbBits.FromProto(&msg.ProposalPol)
+		if err := pbBits.FromProto(&msg.ProposalPol); err != nil {
+			return nil, fmt.Errorf("proposal POL to proto error: %w", err)
+		}
 		pb = &ProposalPOLMessage{
 			Height:           msg.Height,
 			ProposalPOLRound: msg.ProposalPolRound,
@@ -221,7 +225,9 @@ func MsgFromProto(p *tmcons.Message) (Message, error) {
 			return nil, fmt.Errorf("voteSetBits msg to proto error: %w", err)
 		}
 		bits := new(bits.BitArray)
-		bits.FromProto(&msg.Votes)
+		if err := bits.FromProto(&msg.Votes); err != nil {
+			return nil, fmt.Errorf("votes to proto error: %w", err)
+		}
 
 		pb = &VoteSetBitsMessage{
 			Height:  msg.Height,
